@@ -211,6 +211,7 @@ def execute(history):
     models = {}
     viols = []
     cnt = {}
+    obs = []
     interesting = False
     logger = logging.getLogger("be.kuleuven.dtai.distance")
     probe = _Probe()
@@ -258,6 +259,7 @@ def execute(history):
                             interesting = True
                         add(check_post(res, st["obj"], dat, spec, ndim, mon), opi)
                         snap_s = _snapshot(res, st["obj"])
+                        obs.append([opi, snap_s, mon.calls])
                         if op["parallel"]:
                             series2 = _series(dat, ndim)
                             res_p, mon_p, sim = _run_fit(st["obj"], series2, op, True, n)
@@ -267,6 +269,7 @@ def execute(history):
                                 bump("pool:" + kk, vv)
                             add(check_post(res_p, st["obj"], dat, spec, ndim, mon_p), opi)
                             snap_p = _snapshot(res_p, st["obj"])
+                            obs.append([opi, "parallel", snap_p, sim.trace])
                             if snap_p != snap_s:
                                 what = [kk for kk in snap_s if snap_s[kk] != snap_p[kk]]
                                 add({"class": "serial-parallel-differ", "detail": "fit(use_parallel=True) under pool schedule %r differs from the serial fit in %r: %r vs %r"
@@ -284,7 +287,7 @@ def execute(history):
     for kk, vv in probe.counts.items():
         bump(kk, vv)
     return {"violations": viols[:4], "counters": cnt, "nontrivial": interesting,
-            "digest": core.hash_obj([[v["class"], v["op"]] for v in viols])}
+            "digest": core.hash_obj([obs, [[v["class"], v["op"]] for v in viols]])}
 
 
 def signature(history, viol):
